@@ -586,7 +586,7 @@ def run_templates(chk, sep, ex, quick):
         if out is not None and has_float(out):
             chk.dist("skipped.float")
             continue
-        if stream == "malformed" and got[0] == "ok" and any(FLOATISH.search(t) for t in texts):
+        if stream == "malformed" and any(FLOATISH.search(t) for t in texts):
             chk.dist("skipped.float")
             continue
         if texts_random(c):
